@@ -63,10 +63,26 @@ def file_level(ctx, counts):
                     # an open thermocouple / dropped sample: NaN among valid samples; every valid sample must convert as it does alone
                     raw = raw.copy()
                     raw[rnd.randrange(len(raw))] = np.nan
-                expect = np.array([float(sc.ThermocoupleScaling(code, direction, 0xFFFFFFFF).scale(np.array([float(v)]))[0]) for v in raw.astype(np.float64)])
-                props = {"NI_Number_Of_Scales": np.uint32(1), "NI_Scale[0]_Scale_Type": "Thermocouple", "NI_Scale[0]_Thermocouple_Thermocouple_Type": np.uint32(code),
-                         "NI_Scale[0]_Thermocouple_Scaling_Direction": np.uint32(direction), "NI_Scale[0]_Thermocouple_Input_Source": np.uint32(0xFFFFFFFF),
+                chained = dt is np.float64 and rnd.random() < 0.5
+                if chained:
+                    # the thermocouple scale at index 1 takes its input from a Linear scale 0 (device units -> microvolts / degrees)
+                    m_, b_ = rnd.choice([0.5, 2.0, 4.0]), rnd.choice([0.0, 1.0, -2.0])
+                    conv_in = raw.astype(np.float64) * m_ + b_
+                    if direction == 1:
+                        conv_in = np.clip(conv_in, max(lo, -150), min(hi, 900))
+                        raw = (conv_in - b_) / m_
+                        conv_in = raw * m_ + b_
+                    idx = 1
+                else:
+                    conv_in, idx = raw.astype(np.float64), 0
+                expect = np.array([float(sc.ThermocoupleScaling(code, direction, 0xFFFFFFFF).scale(np.array([float(v)]))[0]) for v in conv_in])
+                pre = "NI_Scale[%d]_Thermocouple_" % idx
+                props = {"NI_Number_Of_Scales": np.uint32(idx + 1), "NI_Scale[%d]_Scale_Type" % idx: "Thermocouple", pre + "Thermocouple_Type": np.uint32(code),
+                         pre + "Scaling_Direction": np.uint32(direction), pre + "Input_Source": np.uint32(0 if chained else 0xFFFFFFFF),
                          "NI_Scaling_Status": "unscaled"}
+                if chained:
+                    props.update({"NI_Scale[0]_Scale_Type": "Linear", "NI_Scale[0]_Linear_Slope": m_, "NI_Scale[0]_Linear_Y_Intercept": b_,
+                                  "NI_Scale[0]_Linear_Input_Source": np.uint32(0xFFFFFFFF)})
                 buf = io.BytesIO()
                 rp = dict(kind="file-level", type=name, direction=direction, raw_dtype=str(np.dtype(dt)), raw=[float(v) for v in raw])
                 try:
